@@ -12,6 +12,13 @@
 #ifndef VERIF_OUT_CAP
 #define VERIF_OUT_CAP 256
 #endif
+/* CBMC does not apply the default argument promotions to variadic arguments: a char argument is a 1-byte object.
+ * Reading the low byte is right for promoted and unpromoted arguments alike (little endian). */
+#ifdef VERIF_CBMC
+#define VA_CHAR(ap) ((int)va_arg(ap, char))
+#else
+#define VA_CHAR(ap) va_arg(ap, int)
+#endif
 #ifndef VERIF_STR_MAX
 #define VERIF_STR_MAX 64
 #endif
@@ -73,7 +80,7 @@ static int vs_format(verif_sink *s, const char *f, va_list ap) {
           while(*f == 'l' || *f == 'z' || *f == 'h') { if(*f != 'h') lng = 1; f++; }
           switch(*f) {
           case '%': vs_put(s, '%'); break;
-          case 'c': { int c = va_arg(ap, int); int i; if(!left) for(i = 1; i < width; i++) vs_put(s, ' '); vs_put(s, (char)c); if(left) for(i = 1; i < width; i++) vs_put(s, ' '); } break;
+          case 'c': { int c = VA_CHAR(ap); int i; if(!left) for(i = 1; i < width; i++) vs_put(s, ' '); vs_put(s, (char)c); if(left) for(i = 1; i < width; i++) vs_put(s, ' '); } break;
           case 's': { const char *p = va_arg(ap, const char *); int n = 0, i; if(!p) p = "(null)";
                       if(width == 0) {   /* common case: copy while scanning, so the loop structure follows the string exactly */
                           for(; n < VERIF_STR_MAX && p[n] && (prec < 0 || n < prec); n++) vs_put(s, p[n]);
